@@ -5,7 +5,7 @@ from ._spec_common import *
 
 PROPERTY = "C01"
 LEVEL = "proof"
-TARGETS = ['MutateAttr', 'DeepCopy', 'WithAttr', 'ResetAttr', 'Reset', 'InvalidateAttrs', 'DelAttr', 'SetAttr']
+TARGETS = ['MutateAttr', 'DeepCopy', 'WithAttr', 'ResetAttr', 'Reset', 'InvalidateAttrs', 'DelAttr', 'SetAttr', 'MutateValue', 'UpdateAttr', 'TransformAttr', 'Update', 'Transform']
 FAMILY_FILTER = ['c01.'] + STRUCTURAL
 ASSUMPTIONS = A_COMMON + [
     "protect_via_deepcopy is used by its callers through the contract ProtectCopy; that contract (copier clause) is discharged against "
